@@ -239,12 +239,23 @@ func (s *AccumulatingGroup) Groups(sort sorting.NameSorter) []GroupKey {
 	}
 	if s.sortExpr != nil {
 		ctx := accumulatorGroupSortContext{}
-		sorting.SortBy(ret, sort, func(x GroupKey) string {
+		// groups with equal sort values are ordered by group key, so that the
+		// order never follows the map iteration above
+		type sortItem struct {
+			value string
+			group GroupKey
+		}
+		sorting.SortBy(ret, func(a, b sortItem) bool {
+			if a.value == b.value {
+				return a.group < b.group
+			}
+			return sort(a.value, b.value)
+		}, func(x GroupKey) sortItem {
 			ctx.groupKey = string(x)
 			ctx.rowLookup = func(row string) string {
 				return s.data[x][s.colIdxLookup[row]]
 			}
-			return s.sortExpr.BuildKey(&ctx)
+			return sortItem{s.sortExpr.BuildKey(&ctx), x}
 		})
 	} else {
 		sorting.SortBy(ret, sort, func(x GroupKey) string {
